@@ -436,6 +436,7 @@ func genC15(seed uint64, part string) *Scenario {
 		sc.OutFailAt = k
 	default:
 		bi := r.Intn(n)
+		sc.Bars[bi].ErrKind = r.Pick(0, 0, 1, 2)
 		if r.Chance(1, 3) {
 			sc.Bars[bi].ExtFailAt = k
 			if sc.Bars[bi].Ext == 0 {
@@ -547,6 +548,11 @@ func genC04(seed uint64, part string, prop string) *Scenario {
 					sc.Clients[ci][oi].S = o.S[:20] + "~\n"
 				}
 			}
+		}
+	}
+	for i := range sc.Bars {
+		if sc.Bars[i].Ext > 0 && r.Chance(1, 3) {
+			sc.Bars[i].ExtFrag = true
 		}
 	}
 	// extra text traffic of several lines per cycle
